@@ -62,10 +62,19 @@ func (f *FC) tinyHelpers() map[string]tinyDef {
 		if !ok {
 			continue
 		}
-		if !f.tinyEligible(fn) {
+		if !f.tinyEligible(fn, c01ReviewedTinyDefs) {
 			continue
 		}
 		f.tiny[fn.Name] = tinyDef{len(fn.Params), s}
+	}
+	// a reviewed tiny helper that no longer exists: specification texts that mention it are read with its reviewed
+	// body (no current code can call it, so only the specification side is affected)
+	if strings.HasSuffix(f.Path, "/fc") && !tinyNoFilter {
+		for name, def := range c01ReviewedTinyDefs {
+			if _, exists := f.Prog.ByName[name]; !exists {
+				f.tiny[name] = def
+			}
+		}
 	}
 	return f.tiny
 }
@@ -77,7 +86,7 @@ var tinyNoFilter bool
 // function that BECOMES small (parseTypeList rewritten as one combinator call) is judged at its own pin or digest;
 // expanding it would change the canonical form of every caller, although no caller was edited.  Helpers added
 // since the review are always eligible.
-func (f *FC) tinyEligible(fn *ir.Func) bool {
+func (f *FC) tinyEligible(fn *ir.Func, reviewed map[string]tinyDef) bool {
 	if tinyNoFilter {
 		return true
 	}
@@ -87,12 +96,40 @@ func (f *FC) tinyEligible(fn *ir.Func) bool {
 	if base, has := baselineFuncs["fc"]; !has || !base[fn.Name] {
 		return true
 	}
-	return c01ReviewedTiny[fn.Name]
+	_, was := reviewed[fn.Name]
+	return was
+}
+
+// specDefs: the definitions a SPECIFICATION text is read with.  The pins were written against the reviewed tree:
+// a helper they mention means the helper as it was then (its parameters in the order it had then).  Every helper
+// that is expanded on the current side (or no longer exists) is expanded on the specification side with its
+// reviewed definition; so a helper whose parameters were reordered, with every call site adapted, leaves all
+// callers' comparisons unchanged, and an edit of a helper's body shows in every specification that mentions it.
+func specDefs(cur, reviewed map[string]tinyDef, active bool) map[string]tinyDef {
+	if !active {
+		return cur
+	}
+	res := map[string]tinyDef{}
+	for k, v := range cur {
+		if r, ok := reviewed[k]; ok {
+			res[k] = r
+		} else {
+			res[k] = v
+		}
+	}
+	return res
+}
+
+func (f *FC) expandTinySpec(s string) string {
+	return f.expandTinyWith(s, specDefs(f.tinyHelpers(), c01ReviewedTinyDefs, strings.HasSuffix(f.Path, "/fc") && !tinyNoFilter))
 }
 
 // expandTiny replaces every full application name(a0, …) of a tiny helper by its body with the arguments put in.
 func (f *FC) expandTiny(s string) string {
-	tiny := f.tinyHelpers()
+	return f.expandTinyWith(s, f.tinyHelpers())
+}
+
+func (f *FC) expandTinyWith(s string, tiny map[string]tinyDef) string {
 	if len(tiny) == 0 {
 		return s
 	}
@@ -284,19 +321,33 @@ func (f *FC) tinyTemplates() map[string]tinyDef {
 		if bad || strings.Contains(t, fn.Name+"(") {
 			continue
 		}
-		if !f.tinyEligible(fn) {
+		if !f.tinyEligible(fn, c01ReviewedTinyTpls) {
 			continue
 		}
 		f.tinyTpl[fn.Name] = tinyDef{len(fn.Params), t}
+	}
+	if strings.HasSuffix(f.Path, "/fc") && !tinyNoFilter {
+		for name, def := range c01ReviewedTinyTpls {
+			if _, exists := f.Prog.ByName[name]; !exists {
+				f.tinyTpl[name] = def
+			}
+		}
 	}
 	return f.tinyTpl
 }
 
 func (f *FC) expandTinyTemplates(s string) string {
+	return f.expandTinyTemplatesWith(s, f.tinyTemplates())
+}
+
+func (f *FC) expandTinyTemplatesSpec(s string) string {
+	return f.expandTinyTemplatesWith(s, specDefs(f.tinyTemplates(), c01ReviewedTinyTpls, strings.HasSuffix(f.Path, "/fc") && !tinyNoFilter))
+}
+
+func (f *FC) expandTinyTemplatesWith(s string, tt map[string]tinyDef) string {
 	if !strings.Contains(s, "⟨") {
 		return s
 	}
-	tt := f.tinyTemplates()
 	if len(tt) == 0 {
 		return s
 	}
@@ -347,4 +398,41 @@ func (f *FC) expandTinyTemplates(s string) string {
 // canonicalised).
 func (f *FC) canon(s string) string {
 	return canonDiag(f.expandTiny(f.expandTinyTemplates(s)))
+}
+
+// canonSpec: the canonical text of a specification (pin) of this package: as canon, with the helpers read as reviewed.
+func (f *FC) canonSpec(s string) string {
+	return canonDiag(f.expandTinySpec(f.expandTinyTemplatesSpec(s)))
+}
+
+// equalUpToParamOrder: got is want with the parameters p0…pn-1 renamed by a permutation (n ≤ 4).
+func equalUpToParamOrder(got, want string, n int) bool {
+	if n < 2 || n > 4 {
+		return false
+	}
+	idx := make([]int, n)
+	for i := range idx {
+		idx[i] = i
+	}
+	var rec func(k int) bool
+	rec = func(k int) bool {
+		if k == n {
+			t := tinyParamRe.ReplaceAllStringFunc(got, func(m string) string {
+				if len(m) == 2 && int(m[1]-'0') < n {
+					return "p" + strconv.Itoa(idx[int(m[1]-'0')])
+				}
+				return m
+			})
+			return canonShape(t) == want
+		}
+		for i := k; i < n; i++ {
+			idx[k], idx[i] = idx[i], idx[k]
+			if rec(k + 1) {
+				return true
+			}
+			idx[k], idx[i] = idx[i], idx[k]
+		}
+		return false
+	}
+	return rec(0)
 }
